@@ -2073,9 +2073,10 @@ size_t rtosc_scan_message(const char* src,
         rd += skip_fmt(&src, "%*[^\n] %n");
 
     assert(*src == '/');
-    for(; *src && !isspace(*src) && rd < adrsize; ++rd)
+    size_t adrlen = 0; // whitespace and comments do not go into the address
+    for(; *src && !isspace(*src) && adrlen + 1 < adrsize; ++rd, ++adrlen)
         *address++ = *src++;
-    assert(rd < adrsize); // otherwise, the address was too long
+    assert(!*src || isspace(*src)); // otherwise, the address was too long
     *address = 0;
 
     for(;*src && isspace(*src); ++src) ++rd;
